@@ -6,8 +6,9 @@ import Bng.Model.BindSpec
   through its verif hooks by harness/cmd/dhcp4) on the model Bng.Dhcp4 and runs the binding monitor
   Bng.BindSpec (C02) on the implementation's replies.
 
-    new <net>/<plen> <gateway> <leaseSeconds>
-    disc m<k> <giaddr|-> <c<n>|->
+    new <net>/<plen> <gateway> <leaseSeconds> [<m1:ip,…|->]    5th token = Nexus/HTTP-allocator mode + its table
+    gap <disc|req|rel|dec …>     one cleanup pass with the message handled between its scan and its removal
+    disc m<k> <giaddr|-> <c<n>|-|e|r|x>      (e: empty circuit-id, r: remote-id only, x: truncated TLV)
     req  m<k> <requested|-> <ciaddr|-> <giaddr|-> <c<n>|->
     rel  m<k>
     dec  m<k> <requested|->
@@ -26,14 +27,22 @@ structure St where
   model : Option Dhcp4.State := none
   mon   : BindSpec.Mon := {}
   geo   : BindSpec.Geo := { lo := 0, hi := 0, capacity := 0 }
-  /-- addresses that were served through a circuit-id-index hit (finding D9) in this sequence -/
+  /-- addresses that were served through a circuit-id-index hit (finding D9) and on which model and monitor have
+      not become consistent again since (see `consistentOn`) -/
   taint9 : List Nat := []
+  /-- (client, address): the client was OFFERed the address of its own EXPIRED, not yet cleaned-up lease
+      (finding KF-dhcp4-expired-reoffer: the next cleanup pass frees that address under the outstanding offer) -/
+  reoffer : List (Nat × Nat) := []
 
 def parseAddr (s : String) : Option (Option Nat) :=
   if s == "-" then some none else (parseHex s).map some
 
-def parseCid (s : String) : Option (Option Nat) :=
-  if s == "-" then some none else (parseTagged 'c' s).map some
+/-- option 82: `c<n>` circuit-id, `-` absent, `e` empty circuit-id, `r` remote-id only, `x` truncated TLV
+    → (circuit-id, empty-circuit-id flag) -/
+def parseCid (s : String) : Option (Option Nat × Bool) :=
+  if s == "-" || s == "r" || s == "x" then some (none, false)
+  else if s == "e" then some (none, true)
+  else (parseTagged 'c' s).map fun c => (some c, false)
 
 inductive Line where
   | disc (m : Msg)
@@ -43,16 +52,21 @@ inductive Line where
   | inf (mac : Nat)
   | tick (n : Nat)
   | cleanup
+  | gap (inner : Line)
 
 def parseLine (toks : List String) : Option Line :=
   match toks with
+  | "gap" :: rest =>
+    (match rest with
+      | "disc" :: _ | "req" :: _ | "rel" :: _ | "dec" :: _ => (parseLine rest).map .gap
+      | _ => none)
   | ["disc", m, gi, cid] => do
       let m ← parseTagged 'm' m; let gi ← parseAddr gi; let cid ← parseCid cid
-      pure (.disc { mac := m, giaddr := gi.getD 0, cid := cid })
+      pure (.disc { mac := m, giaddr := gi.getD 0, cid := cid.1, o82empty := cid.2 })
   | ["req", m, r, ci, gi, cid] => do
       let m ← parseTagged 'm' m; let r ← parseAddr r; let ci ← parseAddr ci
       let gi ← parseAddr gi; let cid ← parseCid cid
-      pure (.req { mac := m, requested := r, ciaddr := ci.getD 0, giaddr := gi.getD 0, cid := cid })
+      pure (.req { mac := m, requested := r, ciaddr := ci.getD 0, giaddr := gi.getD 0, cid := cid.1, o82empty := cid.2 })
   | ["rel", m] => (parseTagged 'm' m).map .rel
   | ["dec", m, r] => do let m ← parseTagged 'm' m; let r ← parseAddr r; pure (.dec m r)
   | ["inf", m, ci] => do let m ← parseTagged 'm' m; let _ ← parseAddr ci; pure (.inf m)
@@ -111,6 +125,7 @@ def minuteOps (order : List Nat) : Nat → List Op
 def event (line : Line) (impl : String) : BindSpec.Ev :=
   let toks := splitTokens impl
   match line, toks with
+  | .gap inner, "gap" :: rest => if rest.head? == some "notrun" then .nop else event inner (" ".intercalate rest)
   | .disc m, "offer" :: a :: _ => match parseHex a with
       | some a => .offered m.mac a
       | none => .nop
@@ -124,6 +139,23 @@ def event (line : Line) (impl : String) : BindSpec.Ev :=
   | .tick n, _ => .tick (60 * n)
   | _, _ => .nop
 
+/-- one client message on the model: new state, reply, did it take the circuit-id path -/
+def modelMsg (s : Dhcp4.State) : Line → Option (Dhcp4.State × String × Bool)
+  | .disc m => let (s', r) := Dhcp4.step s (.discover m); some (s', showReply r, circuitHit s m)
+  | .req m => let (s', r) := Dhcp4.step s (.request m); some (s', showReply r, circuitHit s m)
+  | .rel mac => some ((Dhcp4.step s (.release mac)).1, "none", false)
+  | .dec mac r => some ((Dhcp4.step s (.decline mac r)).1, "none", false)
+  | .inf mac => let (s', r) := Dhcp4.step s (.inform mac); some (s', showReply r, false)
+  | _ => none
+
+/-- model state and monitor agree about address `v`: no lease on `v` lacks its backing (pool binding of the same
+    MAC, or that MAC's Nexus allocation), and every binding on `v` the monitor considers live is backed likewise.
+    While this fails after a circuit-id hit on `v`, verdicts about `v` are consequences of finding D9. -/
+def consistentOn (s : Dhcp4.State) (mon : BindSpec.Mon) (v : Nat) : Bool :=
+  let backed := fun (k : Nat) => AMap.lookup s.pool.allocated k == some v || s.cfg.nexusLookup k == some v
+  s.leases.all (fun p => p.2.ip != v || backed p.1) &&
+  mon.table.all (fun b => b.value != v || !(b.live mon.now) || backed b.client)
+
 /-- values the model's pool holds (allocated or unavailable) that the monitor does not count as held, and
     whether each of them is an allocation that NO LEASE of that MAC ON THAT ADDRESS backs (an offer that was never
     taken up, or whose hold lapsed) -/
@@ -133,48 +165,90 @@ def pinnedOffersExplain (g : BindSpec.Geo) (mon : BindSpec.Mon) (s : Dhcp4.State
   let extraUnav := s.pool.unavailable.filter (fun a => !(counted.contains a))
   extraUnav.isEmpty && !extraAlloc.isEmpty &&
     extraAlloc.all (fun p => (AMap.lookup s.leases p.1).map (·.ip) != some p.2) &&
-    decide ((BindSpec.heldValues g mon).length + ((mon.declined ++ mon.soft).filter g.usable).eraseDups.length + extraAlloc.length ≥ g.capacity)
+    decide ((BindSpec.heldValues g mon).length + ((mon.declined ++ mon.soft).filter g.inPool).eraseDups.length + extraAlloc.length ≥ g.capacity)
+
+def parseNexus (s : String) : Option (AMap Nat Nat) :=
+  if s == "-" then some [] else
+  (s.splitOn ",").mapM fun item =>
+    match item.splitOn ":" with
+    | [k, a] => do let k ← parseTagged 'm' k; let a ← parseHex a; pure (k, a)
+    | _ => none
+
+def newRun (netTok gw lt : String) (nexus : Option String) : St × LineResult :=
+  match parseAddrLen netTok, parseHex gw, lt.toNat?, (match nexus with | some t => (parseNexus t).map some | none => some none) with
+  | some (base, plen), some gw, some lt, some nx =>
+    if plen ≤ 32 ∧ base % 2 ^ (32 - plen) = 0 ∧ base + 2 ^ (32 - plen) ≤ 2 ^ 32 then
+      let c : Cfg := { base := base, plen := plen, gateway := gw, leaseTime := lt,
+                       nexusMode := nx.isSome, nexus := nx.getD [] }
+      let s := Dhcp4.init c
+      ({ model := some s, mon := {}, taint9 := [], reoffer := [],
+         geo := { lo := base + 1, hi := c.bcast - 1, excluded := [gw], capacity := c.initialAvail.length,
+                  extra := (nx.getD []).map (·.2) } },
+       { modelObs := "ok " ++ showSnapshot s })
+    else ({}, { modelObs := "badop" })
+  | _, _, _, _ => ({}, { modelObs := "badop" })
 
 def step (st : St) (toks : List String) (impl : String) : St × LineResult :=
   match toks with
-  | ["new", netTok, gw, lt] =>
-    match parseAddrLen netTok, parseHex gw, lt.toNat? with
-    | some (base, plen), some gw, some lt =>
-      if plen ≤ 32 ∧ base % 2 ^ (32 - plen) = 0 ∧ base + 2 ^ (32 - plen) ≤ 2 ^ 32 then
-        let c : Cfg := { base := base, plen := plen, gateway := gw, leaseTime := lt }
-        let s := Dhcp4.init c
-        ({ model := some s, mon := {}, taint9 := [],
-           geo := { lo := base + 1, hi := c.bcast - 1, excluded := [gw], capacity := c.initialAvail.length } },
-         { modelObs := "ok " ++ showSnapshot s })
-      else ({}, { modelObs := "badop" })
-    | _, _, _ => ({}, { modelObs := "badop" })
+  | ["new", netTok, gw, lt] => newRun netTok gw lt none
+  | ["new", netTok, gw, lt, nx] => newRun netTok gw lt (some nx)
   | _ =>
     match st.model, parseLine toks with
     | some s, some line =>
       let order := orderFrom s impl
-      let (s', reply, hit) : Dhcp4.State × String × Bool :=
+      let res : Option (Dhcp4.State × String × Bool) :=
         match line with
-        | .disc m => let (s', r) := Dhcp4.step s (.discover m); (s', showReply r, circuitHit s m)
-        | .req m => let (s', r) := Dhcp4.step s (.request m); (s', showReply r, circuitHit s m)
-        | .rel mac => ((Dhcp4.step s (.release mac)).1, "none", false)
-        | .dec mac r => ((Dhcp4.step s (.decline mac r)).1, "none", false)
-        | .inf mac => let (s', r) := Dhcp4.step s (.inform mac); (s', showReply r, false)
-        | .tick n => (runOps s (minuteOps order n), "ok", false)
-        | .cleanup => ((Dhcp4.step s (.cleanup order)).1, "ok", false)
-      -- finding D9: remember every address served through a circuit-id-index hit
-      let taint := if hit then
-          (match (splitTokens reply) with
-            | _ :: a :: _ => match parseHex a with
-              | some a => if st.taint9.contains a then st.taint9 else a :: st.taint9
-              | none => st.taint9
-            | _ => st.taint9)
-        else st.taint9
+        | .tick n => some (runOps s (minuteOps order n), "ok", false)
+        | .cleanup => some ((Dhcp4.step s (.cleanup order)).1, "ok", false)
+        | .gap inner =>
+          -- the scan; nothing expired: the pass returns before the gap
+          let macs := expiredList s order
+          if macs.isEmpty then some (s, "gap notrun", false)
+          else (modelMsg s inner).map fun (s1, r, hit) =>
+            ((Dhcp4.step s1 (.cleanupApply s.now macs)).1, "gap " ++ r, hit)
+        | l => modelMsg s l
+      match res with
+      | none => (st, { modelObs := "badop" })
+      | some (s', reply, hit) =>
       let (mon', vs) := BindSpec.check st.geo st.mon (event line impl)
+      -- finding D9: an address served through a circuit-id-index hit stays attributed to D9 until model and
+      -- monitor are consistent about it again
+      let served : Option Nat :=
+        match (splitTokens reply).filter (· != "gap") with
+        | kind :: a :: _ => if kind == "offer" || kind == "ack" then parseHex a else none
+        | _ => none
+      let added := match hit, served with
+        | true, some a => if st.taint9.contains a then st.taint9 else a :: st.taint9
+        | _, _ => st.taint9
+      -- finding KF-dhcp4-expired-reoffer: DISCOVER answered from the sender's own expired lease
+      let discMsg : Option Msg := match line with
+        | .disc m => some m
+        | .gap (.disc m) => some m
+        | _ => none
+      let reoff := match discMsg, served with
+        | some m, some a =>
+          (match AMap.lookup s.leases m.mac with
+            | some l => if !(decide (s.now < l.exp)) && l.ip == a then (m.mac, a) :: st.reoffer else st.reoffer
+            | none => st.reoffer)
+        | _, _ => st.reoffer
+      -- … still outstanding for the monitor, but no longer held for that client in the model's pool
+      let voided := fun (v : Nat) => reoff.any fun (c, a) =>
+        a == v && mon'.table.any (fun b => b.client == c && b.value == v && !b.lease && b.live mon'.now) &&
+        AMap.lookup s'.pool.allocated c != some v
       let clause := fun (v : BindSpec.Verdict) =>
         if v.name == "not-reusable" then
-          (if pinnedOffersExplain st.geo st.mon s then "KF-dhcp4-offer-pinned" else "none")
-        else if taint.contains v.value then "D9" else "none"
-      ({ st with model := some s', mon := mon', taint9 := taint },
+          (if pinnedOffersExplain st.geo mon' s' then "KF-dhcp4-offer-pinned" else "none")
+        else if v.name == "range" then "none"
+        else if added.contains v.value then "D9"
+        else if (v.name == "double-binding" || v.name == "foreign-ack") && voided v.value then
+          "KF-dhcp4-expired-reoffer"
+        else if v.name == "declined-reoffered" && s'.cfg.nexusMode && (s'.cfg.nexus.any (·.2 == v.value)) then
+          "KF-dhcp4-nexus-decline"
+        else "none"
+      let taint := added.filter (fun a => !(consistentOn s' mon' a))
+      let reoff' := reoff.filter fun (c, a) =>
+        mon'.table.any (fun b => b.client == c && b.value == a && !b.lease && b.live mon'.now)
+      ({ st with model := some s', mon := mon', taint9 := taint, reoffer := reoff' },
        { modelObs := reply ++ " " ++ showSnapshot s',
          viols := vs.map fun v => (v.name, clause v, v.detail) })
     | _, _ => (st, { modelObs := "badop" })
